@@ -594,6 +594,8 @@ def gen_valid(rng, late=False, kind="step", nch=None):
     dims = gen_system(rng)
     nch = nch or rng.choice([1, 2, 2, 3, 3, 4])
     lab = rng.choice(LABELS)
+    perm = list(range(nch))
+    rng.shuffle(perm)             # labels are NOT in sorted order / not aligned with the channel index
     chans = []
     for m in range(nch):
         tl = gen_grid(rng, start0=not (late and rng.random() < 0.6))
@@ -606,7 +608,7 @@ def gen_valid(rng, late=False, kind="step", nch=None):
         cf = gen_coeff(rng, ncf)
         if kind == "step" and ncf == len(tl) and rng.random() < 0.7 and cf[-1] == 0:
             cf[-1] = Fraction(rng.choice([-9, 5, 13]), 8)
-        chans.append(dict(label=lab % m, targets=gen_targets(rng, dims), seed=rng.randint(0, 10 ** 6),
+        chans.append(dict(label=lab % perm[m], targets=gen_targets(rng, dims), seed=rng.randint(0, 10 ** 6),
                           tlist=[enc(x) for x in tl], coeff=[enc(x) for x in cf]))
     drift = []
     if rng.random() < 0.5:
